@@ -21,6 +21,7 @@ use crate::Entry;
 pub fn all() -> Vec<Entry> {
     vec![
         Entry { scn: &c02::C02Cell, quick_runs: 100_000, thorough_runs: 5_000_000 },
+        Entry { scn: &c02::C02Global, quick_runs: 60_000, thorough_runs: 3_000_000 },
         Entry { scn: &c05::C05Bucket, quick_runs: 60_000, thorough_runs: 3_000_000 },
         Entry { scn: &c04::C04Handles, quick_runs: 60_000, thorough_runs: 3_000_000 },
         Entry { scn: &c20::C20Recoverable, quick_runs: 60_000, thorough_runs: 3_000_000 },
